@@ -175,10 +175,8 @@ def check(tier, seed):
     # gate + replay files
     for key, (b, exe, disabled, wrapper, text, detail) in sorted(found.items()):
         rp = CaseReplayer(exe, disabled, STACK_IDS, wrapper=wrapper)
-        k1, d1 = rp.key_of(text)
-        k2, _ = rp.key_of(text)
-        if k1 != key or k2 != key:
-            rep.nonrepro.append('key=%s build=%s replayed as %s / %s' % (key, b, k1, k2))
+        key, d1 = checks.confirm(rep, rp, text, key, 'build=%s' % b)
+        if key is None:
             continue
         path = checks.replay_path(PROP, key)
         with open(path, 'w') as f:
